@@ -43,6 +43,12 @@ type Opts struct {
 	NoStdlib bool
 	Library  lisp.SourceLibrary
 	NoProbes bool
+	// PreInit, when set, runs on the bare environment (lisp.NewEnv) before
+	// InitializeUserEnv: an embedder assigning exported Runtime / CallStack fields
+	// before anything else.  Extra configs are handed to InitializeUserEnv after the
+	// ones derived from the fields above.  Both default to nothing.
+	PreInit func(env *lisp.LEnv)
+	Extra   []lisp.Config
 }
 
 // R is a monitored runtime.
@@ -67,6 +73,9 @@ type DepthSample struct {
 	Height   int
 	TailIter int32
 	Logical  int
+	// TailSum is the sum of TailIterations over all live frames: whichever frame a loop
+	// is resumed in, its turns are counted somewhere on the stack.
+	TailSum int64
 }
 
 type dormantDebugger struct{}
@@ -94,6 +103,9 @@ func New(o Opts) *R {
 	if o.Library != nil {
 		env.Runtime.Library = o.Library
 	}
+	if o.PreInit != nil {
+		o.PreInit(env)
+	}
 	var cfg []lisp.Config
 	if o.MaxSteps > 0 {
 		cfg = append(cfg, lisp.WithMaxSteps(o.MaxSteps))
@@ -116,6 +128,7 @@ func New(o Opts) *R {
 	if o.MaxAlloc != 0 {
 		cfg = append(cfg, lisp.WithMaxAlloc(o.MaxAlloc))
 	}
+	cfg = append(cfg, o.Extra...)
 	if rc := lisp.InitializeUserEnv(env, cfg...); !rc.IsNil() {
 		panic(fmt.Sprint("InitializeUserEnv: ", rc))
 	}
@@ -237,6 +250,9 @@ func (r *R) addProbes(env *lisp.LEnv) {
 			if len(fr) >= 2 {
 				ds.TailIter = fr[len(fr)-2].TailIterations
 				ds.Logical = fr[len(fr)-2].HeightLogical
+			}
+			for i := range fr {
+				ds.TailSum += int64(fr[i].TailIterations)
 			}
 			r.DepthSamples = append(r.DepthSamples, ds)
 			return lisp.Int(len(fr))
